@@ -1,14 +1,21 @@
 //! C13 — mani: manifest edits are atomic and durable; reopening replays exactly those applied.
 //!
-//! Four streams, all against the real `mani::Manifest` in a scratch directory under /var/tmp:
+//! Five streams, all against the real `mani::Manifest` in a scratch directory under /var/tmp:
 //!   1. `step`  — histories of edits / reopens / rollovers; after every event the directory bytes,
 //!      the in-memory state, the state after `Manifest::open` of a copy, `Manifest::verify`;
 //!   2. `cuts`  — every (or a capped set of) truncation length of a MANIFEST, reopened in a copy;
 //!   3. `crash` — the directory image after the first n system calls of the history under both
 //!      persistence models, reopened with the real code, then verified;
-//!   4. `ops`   — the real mutating system calls (strace) against the model's op list.
+//!   4. `ops`   — the real mutating system calls (strace) against the model's op list;
+//!   5. `crash` again, but with every image built from the REAL system-call trace of the history
+//!      (`fstrace`: strace -f -xx -y of a re-exec'd child, per-inode durable snapshots): a crash
+//!      after every prefix of the real calls under both persistence models, reopened and verified.
+//!      Stream 3 ties the code to `ManiCrash` (its images follow the op order the harness
+//!      re-implements); stream 5 is the oracle's input (a call the code forgets, e.g. the
+//!      fdatasync of MANIFEST.tmp before the rename, reaches an image here).
 //! The oracle uses its own reference replay (BTreeSet/BTreeMap) and never the model.
 use crate::common::*;
+use crate::fstrace::{self, FsOp, SimFs};
 use arrrg::CommandLine;
 use mani::{Edit, Manifest, ManifestOptions};
 use std::collections::{BTreeMap, BTreeSet};
@@ -769,9 +776,71 @@ struct FileUnderCut {
     what: &'static str,
 }
 
+/// child of stream 5: the same, writing `MARK b k` before and `MARK a k` after the k-th `apply`
+fn child_marked(rest: &[String]) -> ! {
+    // rest = ["--childm", dir, marker, ratio, events...]
+    use std::io::Write as _;
+    let dir = PathBuf::from(&rest[1]);
+    let mut marker = std::fs::OpenOptions::new().create(true).append(true).open(&rest[2]).expect("child: marker");
+    let h = parse_hist(&rest[3..]).expect("child: bad history");
+    let mut live = Live::start_prepared(&dir, &h).expect("child: open");
+    let mut k = 0;
+    for e in &h.evs {
+        let is_edit = matches!(e, Ev::Edit(_));
+        if is_edit {
+            marker.write_all(format!("MARK b {}\n", k).as_bytes()).unwrap();
+        }
+        let o = live.event(e);
+        if o.trouble.is_some() {
+            std::process::exit(3);
+        }
+        if is_edit {
+            marker.write_all(format!("MARK a {}\n", k).as_bytes()).unwrap();
+            k += 1;
+        }
+    }
+    drop(live);
+    std::process::exit(0);
+}
+
+/// which calls of an edit the `Edit` API accepts (no directory involved)
+fn accepted_calls(cs: &[Call]) -> Vec<bool> {
+    let mut edit = Edit::default();
+    cs.iter()
+        .map(|c| {
+            g(|| match c {
+                Call::Add(s) => edit.add(s).is_ok(),
+                Call::Rm(s) => edit.rm(s).is_ok(),
+                Call::Info(k, s) => edit.info(*k, s).is_ok(),
+            })
+            .unwrap_or(false)
+        })
+        .collect()
+}
+
+/// fingerprint of the directory a crash leaves: names, hard-link structure, surviving bytes
+fn image_fingerprint(sim: &SimFs, model_b: bool) -> u64 {
+    let mut buf: Vec<u8> = vec![];
+    let mut first: BTreeMap<usize, usize> = BTreeMap::new();
+    for (n, (p, &i)) in sim.files.iter().enumerate() {
+        let canon = *first.entry(i).or_insert(n);
+        let ino = &sim.inodes[i];
+        let content: &[u8] = if model_b { ino.durable.as_deref().unwrap_or(&[]) } else { &ino.data };
+        buf.extend_from_slice(p.as_bytes());
+        buf.push(0);
+        buf.extend_from_slice(&(canon as u64).to_le_bytes());
+        buf.extend_from_slice(&(content.len() as u64).to_le_bytes());
+        buf.extend_from_slice(content);
+    }
+    fnv(&buf)
+}
+
 pub fn run(args: &Args) {
     if args.rest.first().map(|s| s.as_str()) == Some("--child") {
         child_main(&args.rest);
+    }
+    if args.rest.first().map(|s| s.as_str()) == Some("--childm") {
+        child_marked(&args.rest);
     }
     // `Manifest::verify` prints to stdout; keep the harness quiet
     unsafe {
@@ -1062,7 +1131,6 @@ pub fn run(args: &Args) {
                 }
                 ops.push(Op::Append(with_edit[old.len()..].to_vec()));
                 ops.push(Op::Sync);
-                ops.push(Op::Ack);
             }
             if rolled {
                 ops.push(Op::Link);
@@ -1070,6 +1138,10 @@ pub fn run(args: &Args) {
                 ops.push(Op::TmpWrite(obs.listing.mani.clone().unwrap_or_default()));
                 ops.push(Op::TmpSync);
                 ops.push(Op::Rename);
+            }
+            if let Ev::Edit(_) = e {
+                // `apply` returns after the rollover its write may have triggered
+                ops.push(Op::Ack);
             }
             prev = obs.listing;
         }
@@ -1228,9 +1300,238 @@ pub fn run(args: &Args) {
         }
     }
 
+    // ---- stream 5: crash images from the real system-call trace --------------------------------
+    let n_tcrash: u64 = if args.thorough { 160 } else { 30 };
+    let tc_dir = scratch.join("tlive");
+    let tc_img = scratch.join("timg");
+    let marker = scratch.join("marker");
+    for hi in 0..n_tcrash {
+        let mut rng = Rng::for_case(args.seed, 5, hi);
+        let profile = if hi % 3 == 2 { Profile::Long } else { Profile::Small };
+        let mut h = gen_hist(&mut rng, profile, if args.thorough { 7 } else { 6 }, true);
+        h.ratio = if profile == Profile::Long { *rng.pick(&[1u64, 2, 3]) } else { *rng.pick(&[0u64, 1, 2, 3]) };
+        h.stale = hi % 4 == 1;
+        if !strace_ok {
+            if rec.wants() {
+                rec.count("tcrash.strace_unavailable");
+                let req = format!("mani crash 0 w {}", hist_toks(&h, h.evs.len()));
+                rec.case(&format!("# {}", req), &format!("# {}", req), Verdict::Ok, None);
+            } else {
+                rec.skip();
+            }
+            continue;
+        }
+        // the oracle's own replay of the edits
+        let mut reference = Ref::default();
+        let mut ref_states = vec![Ref::default()];
+        for e in &h.evs {
+            if let Ev::Edit(cs) = e {
+                let acc = accepted_calls(cs);
+                reference.apply(cs, &acc);
+                ref_states.push(reference.clone());
+            }
+        }
+        // run the history once, for real, under strace
+        Live::prepare(&tc_dir, &h);
+        let _ = std::fs::remove_file(&marker);
+        let toks = hist_toks(&h, h.evs.len());
+        let out_file = scratch.join("ttrace.out");
+        let mut cmd = std::process::Command::new("strace");
+        cmd.args(["-f", "-o"]).arg(&out_file).args([
+            "-s",
+            "4000000",
+            "-xx",
+            "-y",
+            "-e",
+            "trace=openat,open,creat,write,pwrite64,fsync,fdatasync,link,linkat,rename,renameat,renameat2,unlink,unlinkat,mkdir,mkdirat,rmdir",
+        ]);
+        cmd.arg(&exe).arg("C13").arg("--childm").arg(&tc_dir).arg(&marker);
+        for t in toks.split(' ') {
+            cmd.arg(t);
+        }
+        let status = cmd.stdout(std::process::Stdio::null()).stderr(std::process::Stdio::null()).status();
+        let text = std::fs::read_to_string(&out_file).unwrap_or_default();
+        let traced_ok = matches!(&status, Ok(s) if s.code() == Some(0)) && !text.is_empty();
+        if !traced_ok {
+            if rec.wants() {
+                rec.count("tcrash.child_failed");
+                let req = format!("mani crash 0 w {}", toks);
+                rec.case(&req, "traced-run-failed", Verdict::Fail { class: "traced-run-failed".into(), detail: format!("{:?}", status) }, None);
+            } else {
+                rec.skip();
+            }
+            continue;
+        }
+        let ops: Vec<FsOp> = fstrace::parse(&text, &tc_dir.to_string_lossy(), &marker.to_string_lossy())
+            .into_iter()
+            .filter(|o| match o {
+                FsOp::Create { path, .. } | FsOp::Truncate { path } | FsOp::Write { path, .. } | FsOp::Sync { path } | FsOp::Unlink { path } => path.starts_with("MANIFEST"),
+                FsOp::Link { from, to } | FsOp::Rename { from, to } => from.starts_with("MANIFEST") || to.starts_with("MANIFEST"),
+                FsOp::Mark { .. } => true,
+                _ => false,
+            })
+            .collect();
+        rec.count("tcrash.hist");
+        let mut sim = SimFs::default();
+        if h.stale {
+            let b = stale_tmp_bytes();
+            sim.inodes.push(fstrace::Inode { data: b.clone(), durable: Some(b) });
+            sim.files.insert("MANIFEST.tmp".into(), 0);
+        }
+        // position in the model's op list (append sync ack | link tmpclear tmpwrite tmpsync rename)
+        let mut n_model = 0usize;
+        let mut last = "start".to_string();
+        let mut variant = "w";
+        let mut pending_clear = false; // `link` seen, the look at MANIFEST.tmp not yet accounted for
+        let (mut acked, mut begun, mut appended) = (0usize, 0usize, 0usize);
+        let mut cache: BTreeMap<u64, (Result<Ref, String>, Result<usize, String>)> = BTreeMap::new();
+        for idx in 0..=ops.len() {
+            if idx > 0 {
+                let op = &ops[idx - 1];
+                sim.apply(op);
+                variant = "w";
+                match op {
+                    FsOp::Mark { text } => {
+                        if text.starts_with("b ") {
+                            begun += 1;
+                            continue; // not a call of the protocol, same image
+                        } else if text.starts_with("a ") {
+                            acked += 1;
+                            n_model += 1;
+                            last = "ack".into();
+                        } else {
+                            continue;
+                        }
+                    }
+                    FsOp::Create { path, .. } => {
+                        if path == "MANIFEST.tmp" && pending_clear {
+                            pending_clear = false;
+                            n_model += 1;
+                            last = "tmpclear".into();
+                        }
+                        variant = "c";
+                    }
+                    FsOp::Unlink { path } if path == "MANIFEST.tmp" => {
+                        pending_clear = false;
+                        n_model += 1;
+                        last = "tmpclear".into();
+                    }
+                    FsOp::Write { path, .. } => {
+                        if path == "MANIFEST.tmp" {
+                            if pending_clear {
+                                pending_clear = false;
+                                n_model += 1;
+                            }
+                            last = "tmpwrite".into();
+                        } else {
+                            appended += 1;
+                            last = "append".into();
+                        }
+                        n_model += 1;
+                    }
+                    FsOp::Sync { path } => {
+                        last = if path == "MANIFEST.tmp" { "tmpsync" } else { "sync" }.into();
+                        n_model += 1;
+                    }
+                    FsOp::Link { .. } => {
+                        pending_clear = true;
+                        last = "link".into();
+                        n_model += 1;
+                    }
+                    FsOp::Rename { .. } => {
+                        last = "rename".into();
+                        n_model += 1;
+                    }
+                    other => {
+                        last = format!("other:{:?}", other).split_whitespace().next().unwrap_or("other").to_string();
+                    }
+                }
+            }
+            if !rec.wants() {
+                rec.skip();
+                continue;
+            }
+            let req = format!("mani crash {} {} {}", n_model, variant, toks);
+            rec.count("tcrash.point");
+            rec.count(&format!("tcrash.after.{}{}", last, if variant == "c" { "+create" } else { "" }));
+            let linked = match (sim.files.get("MANIFEST"), sim.files.iter().filter(|(p, _)| backup_id(p).is_some()).max_by_key(|(p, _)| backup_id(p))) {
+                (Some(m), Some((_, b))) => m == b,
+                _ => false,
+            };
+            let mut parts: Vec<String> = vec![];
+            let mut vers: Vec<String> = vec![];
+            let mut bad: Vec<String> = vec![];
+            for model_b in [false, true] {
+                let name = if model_b { "b" } else { "a" };
+                let fp = image_fingerprint(&sim, model_b);
+                if !cache.contains_key(&fp) {
+                    rec.count("tcrash.distinct_images_reopened");
+                    let res = match sim.materialize(&tc_img.to_string_lossy(), model_b) {
+                        Ok(()) => {
+                            let o = open_state(h.ratio, &tc_img);
+                            let v = verify_count(h.ratio, &tc_img);
+                            (o, v)
+                        }
+                        Err(e) => (Err(format!("materialize:{}", e)), Err("materialize".into())),
+                    };
+                    cache.insert(fp, res);
+                }
+                let (o, v) = cache.get(&fp).unwrap().clone();
+                let hi_k = begun.min(ref_states.len() - 1);
+                match o {
+                    Ok(r) => {
+                        if acked > hi_k || !ref_states[acked..=hi_k].contains(&r) {
+                            bad.push(format!(
+                                "model ({}): after {} real calls the reopened state {} is not the state after a prefix of the edits holding every returned one ({} returned, {} begun)",
+                                name,
+                                ops[..idx].iter().filter(|o| o.mutating()).count(),
+                                r.render(),
+                                acked,
+                                begun
+                            ));
+                        }
+                        parts.push(r.render());
+                    }
+                    Err(e) => {
+                        if e != "err:corruption" {
+                            bad.push(format!("model ({}): reopen: {}", name, e));
+                        }
+                        parts.push(e);
+                    }
+                }
+                match v {
+                    Ok(0) => vers.push("0".into()),
+                    Ok(k) => {
+                        bad.push(format!("model ({}): Manifest::verify reports {} error(s) after the reopen", name, k));
+                        vers.push(k.to_string());
+                    }
+                    Err(p) => {
+                        bad.push(format!("model ({}): verify: {}", name, p));
+                        vers.push("panic".into());
+                    }
+                }
+            }
+            let observed = format!(
+                "last={}{} acked={} appended={} A={} B={} VA={} VB={}",
+                last,
+                if variant == "c" { "+create" } else { "" },
+                acked,
+                appended,
+                parts[0],
+                parts[1],
+                vers[0],
+                vers[1]
+            );
+            let class = if linked { "trace-crash-in-rollover-after-link".to_string() } else { format!("trace-crash-after-{}", last) };
+            let verdict = if bad.is_empty() { Verdict::Ok } else { Verdict::Fail { class, detail: bad.join("; ") } };
+            let nt = if idx >= 1 { Some(fnv(format!("t{}", req).as_bytes())) } else { None };
+            rec.case(&req, &observed, verdict, nt);
+        }
+    }
+
     let _ = std::fs::remove_dir_all(&scratch);
     rec.finish(
-        "histories of manifest edits (adds, removes, info updates, empty edits, re-adds of removed strings, every accepted byte, long strings; ratios 0..1000; reopens, explicit rollovers, a stale MANIFEST.tmp) run with the real mani::Manifest: one case per event (directory bytes, in-memory state, reopen of a copy, verify), per truncated file (all or a capped set of lengths, each reopened), per crash point x {completed calls persist, unsynced bytes lost} (image rebuilt, reopened, verified), per strace'd run; non-trivial = a step after >= 2 events, a cut file longer than one line, a crash point after >= 1 call, any traced run; distinct by request text",
+        "histories of manifest edits (adds, removes, info updates, empty edits, re-adds of removed strings, every accepted byte, long strings; ratios 0..1000; reopens, explicit rollovers, a stale MANIFEST.tmp) run with the real mani::Manifest: one case per event (directory bytes, in-memory state, reopen of a copy, verify), per truncated file (all or a capped set of lengths, each reopened), per crash point x {completed calls persist, unsynced bytes lost} (image rebuilt, reopened, verified), per strace'd run, and per prefix of the REAL system-call trace of a history (strace -f -xx -y of a re-exec'd child; image rebuilt from the traced calls under both persistence models, distinct images reopened and verified — the oracle's crash input); non-trivial = a step after >= 2 events, a cut file longer than one line, a crash point after >= 1 call, any traced run; distinct by request text",
         &[],
     );
 }
